@@ -374,6 +374,7 @@ func compileStruct(typ *runtime.Type, structName, fieldName string, structTypeTo
 						isTaggedKey: v.isTaggedKey,
 						key:         k,
 						keyLen:      int64(len(k)),
+						depth:       v.depth + 1,
 					}
 					allFields = append(allFields, fieldSet)
 				}
@@ -402,6 +403,7 @@ func compileStruct(typ *runtime.Type, structName, fieldName string, structTypeTo
 							key:         k,
 							keyLen:      int64(len(k)),
 							err:         fieldSetErr,
+							depth:       v.depth + 1,
 						}
 						allFields = append(allFields, fieldSet)
 					}
@@ -463,17 +465,31 @@ func filterDuplicatedFields(allFields []*structFieldSet) []*structFieldSet {
 	for _, field := range allFields {
 		fieldMap[field.key] = append(fieldMap[field.key], field)
 	}
-	duplicatedFieldMap := map[string]struct{}{}
+	// for each name the shallowest fields win; several at that depth are all
+	// dropped unless exactly one of them is tagged ( as in encoding/json )
+	winner := map[string]*structFieldSet{}
 	for k, sets := range fieldMap {
-		sets = filterFieldSets(sets)
-		if len(sets) != 1 {
-			duplicatedFieldMap[k] = struct{}{}
+		minDepth := sets[0].depth
+		for _, set := range sets {
+			if set.depth < minDepth {
+				minDepth = set.depth
+			}
+		}
+		shallowest := make([]*structFieldSet, 0, len(sets))
+		for _, set := range sets {
+			if set.depth == minDepth {
+				shallowest = append(shallowest, set)
+			}
+		}
+		shallowest = filterFieldSets(shallowest)
+		if len(shallowest) == 1 {
+			winner[k] = shallowest[0]
 		}
 	}
 
 	filtered := make([]*structFieldSet, 0, len(allFields))
 	for _, field := range allFields {
-		if _, exists := duplicatedFieldMap[field.key]; exists {
+		if winner[field.key] != field {
 			continue
 		}
 		filtered = append(filtered, field)
